@@ -68,7 +68,7 @@ fn parse_standard(out: &[u8]) -> Parsed {
 
 /// The statement's outcome table for standard output of one file.
 /// Returns a description of the violation, if any.
-fn judge_standard(content: &[u8], needle: &[u8], bin: Bin, stdout: &[u8]) -> Option<String> {
+fn judge_standard(content: &[u8], needle: &[u8], bin: Bin, reader: bool, stdout: &[u8]) -> Option<String> {
     let first_nul = content.iter().position(|&b| b == 0);
     let reference = text_reference(content, needle, false);
     if bin == Bin::None {
@@ -97,6 +97,13 @@ fn judge_standard(content: &[u8], needle: &[u8], bin: Bin, stdout: &[u8]) -> Opt
             let (_, e) = lines[*n as usize - 1];
             if e > z && content[lines[*n as usize - 1].0..e].contains(&0) {
                 return Some("a line containing the NUL was printed".into());
+            }
+            // The incremental reader examines every byte it reads, so under
+            // quit-style detection the file is cut off *at* the NUL: nothing
+            // that starts after it can be reported. (A slice strategy only
+            // examines the sniffed prefix and the reported lines.)
+            if reader && bin == Bin::Quit && lines[*n as usize - 1].0 > z {
+                return Some("a line after the NUL was printed although the reader strategy examines every byte (the file must be cut off at the NUL)".into());
             }
         }
     } else {
@@ -326,7 +333,7 @@ pub fn run(args: &Args) -> ! {
                     let verdict = if bin != Bin::None && out.contains(&0) {
                         Some("a NUL byte from the input reached the printer's output".to_string())
                     } else if ctx == 0 && !ml {
-                        judge_standard(content, b"m", bin, &out)
+                        judge_standard(content, b"m", bin, !slice, &out)
                     } else if bin == Bin::None {
                         // text mode == detection disabled is an identity at library level
                         None
@@ -456,7 +463,7 @@ pub fn run(args: &Args) -> ! {
             if bin != Bin::None && out.stdout.contains(&0) {
                 why = Some("a NUL byte from the file reached stdout without --text".to_string());
             } else if modes[mi].0 == "standard" {
-                why = judge_standard(content, pat.as_bytes(), bin, &out.stdout);
+                why = judge_standard(content, pat.as_bytes(), bin, mmap == "--no-mmap" || path_mode == "stdin", &out.stdout);
             } else if matches!(modes[mi].0, "after" | "before" | "context" | "multiline-before") && bin == Bin::Convert {
                 // the outcome table's last clause also holds with context: an
                 // explicit / --binary file is silent only if no line matches
@@ -521,7 +528,7 @@ pub fn run(args: &Args) -> ! {
     ev.set("runs_dropping_the_file", lib.dropped + cli.dropped);
     ev.set(
         "rule",
-        "files: 'm1\\nx2\\nm3\\nx4\\n' with one NUL inserted at every offset, one NUL replacing every byte (thorough: also every pair of insertions), two unterminated variants; thorough also 'x1\\nm2\\nm3\\nx4\\nx5\\nm6\\n' (non-matching first line, adjacent matches, a two-line gap) with one NUL inserted at every offset / replacing every byte, at both levels; real scale: a 130 KiB file of 100-byte lines with a NUL at offsets {0,1,65450,65535,65536,65537,65599,70000,70805,70905 (inside the before-context window of the next match),len-2} and with the line straddling the 64 KiB sniff window being a matching line / a context line with its NUL beyond the window. Library level: Searcher + Standard printer, detection quit/convert/none x roll-buffer capacity {1,2,3,4,6} (thorough 1..8) x read size {1,2,3,64} (thorough {1,2,3,4,5,64}) x slice x multi-line x context 0/1 (thorough 0/1/2). CLI level: rg on every file x {implicit (directory), explicit path, stdin} x {default, --binary, --text} x {--mmap, --no-mmap} x {-n, -c, -l, -o, -A1, -B1, -C2, -U -B1, --passthru, --json, -U, -v, -r X} x pattern {m, never}. Oracle: no NUL byte on the output unless text mode; for standard output the statement's outcome table (printed lines = a prefix of the text-mode lines, all before the NUL; traversed: warning iff cut off after a printed line, never a notice; explicit/--binary: at most the notice, silence only if nothing matches); --text == reference with detection disabled; in the context modes an explicit / --binary file with a NUL-free matching line must show a match or the notice. distinct_nontrivial = runs on files that contain a NUL.",
+        "files: 'm1\\nx2\\nm3\\nx4\\n' with one NUL inserted at every offset, one NUL replacing every byte (thorough: also every pair of insertions), two unterminated variants; thorough also 'x1\\nm2\\nm3\\nx4\\nx5\\nm6\\n' (non-matching first line, adjacent matches, a two-line gap) with one NUL inserted at every offset / replacing every byte, at both levels; real scale: a 130 KiB file of 100-byte lines with a NUL at offsets {0,1,65450,65535,65536,65537,65599,70000,70805,70905 (inside the before-context window of the next match),len-2} and with the line straddling the 64 KiB sniff window being a matching line / a context line with its NUL beyond the window. Library level: Searcher + Standard printer, detection quit/convert/none x roll-buffer capacity {1,2,3,4,6} (thorough 1..8) x read size {1,2,3,64} (thorough {1,2,3,4,5,64}) x slice x multi-line x context 0/1 (thorough 0/1/2). CLI level: rg on every file x {implicit (directory), explicit path, stdin} x {default, --binary, --text} x {--mmap, --no-mmap} x {-n, -c, -l, -o, -A1, -B1, -C2, -U -B1, --passthru, --json, -U, -v, -r X} x pattern {m, never}. Oracle: no NUL byte on the output unless text mode; for standard output the statement's outcome table (printed lines = a prefix of the text-mode lines, all before the NUL; traversed: warning iff cut off after a printed line, never a notice; explicit/--binary: at most the notice, silence only if nothing matches; traversed + reader strategy: no printed line starts after the first NUL); --text == reference with detection disabled; in the context modes an explicit / --binary file with a NUL-free matching line must show a match or the notice. distinct_nontrivial = runs on files that contain a NUL.",
     );
     ev.set("samples", json!([{"file": "m1\\nx2\\n\\x00m3\\nx4\\n", "mode": "explicit --no-mmap -n", "expected": "1:m1 then 'binary file matches' notice or just the notice"}]));
     ev.assume("--null-data is outside the property (it disables detection by design)");
@@ -549,7 +556,7 @@ fn replay(path: &str) -> ! {
             v["ctx"].as_u64().unwrap_or(0) as usize,
         );
         println!("content {} -> output {:?}", esc(&content), out.as_ref().map(|o| esc(o)));
-        let bad = out.map_or(true, |o| (bin != Bin::None && o.contains(&0)) || judge_standard(&content, b"m", bin, &o).is_some());
+        let bad = out.map_or(true, |o| (bin != Bin::None && o.contains(&0)) || judge_standard(&content, b"m", bin, !v["slice"].as_bool().unwrap_or(false), &o).is_some());
         std::process::exit(if bad { 1 } else { 0 })
     }
     println!("cli replay: write the file described by {:?} and run rg {} {} {} <mode {}> {}", v["file"], v["path_mode"], v["binary_flag"], v["mmap"], v["mode"], v["pattern"]);
